@@ -53,6 +53,7 @@ impl Sub for VecCodec {
         let v64 = to_i64(&c.v);
         let want = codec::encode(&v64, c.budget);
         let got = compress(&c.v, c.budget);
+        ensure!(compress(&c.v, c.budget) == got, "compress:not-repeatable", "a second compress of the same vector gives a different result");
         let bits = codec::total_bits(&v64);
         ensure!(
             got.is_some() == want.is_some(),
@@ -98,8 +99,15 @@ pub struct StrCase {
 pub struct StrCodec;
 
 pub fn check_string(x: &[u8], n: usize, st: &mut Stats) -> Result<(), Fail> {
+    check_string_opt(x, n, st, true)
+}
+
+pub fn check_string_opt(x: &[u8], n: usize, st: &mut Stats, repeat: bool) -> Result<(), Fail> {
     let want = codec::decode_traced(x, n);
     let got = decompress(x, n);
+    if repeat {
+        ensure!(decompress(x, n) == got, "decompress:not-repeatable", "a second decompress of the same string gives a different result");
+    }
     match (&got, &want) {
         (Some(g), Ok(w)) => {
             ensure!(to_i64(g) == *w, "decompress:value", "decompress returns {:?}.. but Algorithm 18 gives {:?}..", g.iter().take(6).collect::<Vec<_>>(), w.iter().take(6).collect::<Vec<_>>());
@@ -180,7 +188,7 @@ impl Sub for StrBlock {
             for k in 0..free {
                 x[fixed + k] = (low >> (8 * (free - 1 - k))) as u8;
             }
-            if let Err(f) = no_panic(|| check_string(&x, c.n, &mut local)).unwrap_or_else(|p| Err(Fail::new(format!("decompress:panic:{}", panic_site(&p)), format!("panicked: {}", p)))) {
+            if let Err(f) = no_panic(|| check_string_opt(&x, c.n, &mut local, false)).unwrap_or_else(|p| Err(Fail::new(format!("decompress:panic:{}", panic_site(&p)), format!("panicked: {}", p)))) {
                 return Err(Fail::new(f.key, format!("x = {} n = {}: {}", crate::util::hex(&x), c.n, f.msg)).with_minimal(json!({"x": crate::util::hex(&x), "n": c.n})).into_sub("decompress_string"));
             }
         }
